@@ -319,8 +319,11 @@ def stepOp (a : TA) (line : String) : TA :=
           ++ (if injected then ["wfault-hit"] else [])
         expectLine { a with tags := a.tags ++ tags } s!"P off {k} files={n}" "off"
   | op :: tw :: restw =>
-    if op != "run" && op != "runc" then expectLine a "bad-op" "malformed op" else
-    match tw.toNat? with
+    if op != "run" && op != "runc" && op != "runp" then expectLine a "bad-op" "malformed op" else
+    -- runp <T> <usec> …: paced logging (each thread pauses 0.2–1.8 × usec between records); same expectations as run
+    let paceOk := op != "runp" || (match restw.head? with | some w => w.length ≤ 4 && (w.toNat?.map (fun n => n ≥ 1 && n ≤ 5000)).getD false | none => false)
+    let restw := if op == "runp" then restw.drop 1 else restw
+    match (if paceOk then tw.toNat? else none) with
     | none => expectLine a "bad-op" "malformed op"
     | some T =>
       -- runc: <A> concurrent reconfiguration actions precede the message specs
@@ -347,7 +350,7 @@ def stepOp (a : TA) (line : String) : TA :=
           let switches := ((G.zip (G.drop 1)).filter fun p => p.1.ttag != p.2.ttag).length
           let newTags := a.tags ++ recTags ++ (if active ≥ 2 then ["threads>=2"] else ["threads1"])
                                  ++ (if switches ≥ active && active ≥ 2 then ["interleaved"] else [])
-                                 ++ (if nA > 0 then ["concurrent-reconf"] else [])
+                                 ++ (if nA > 0 then ["concurrent-reconf"] else []) ++ (if op == "runp" then ["paced"] else [])
           let mut a := { a with nrec := a.nrec + G.length, tags := newTags }
           for i in [0:a.sinks.size] do
             if a.err.isSome then break
